@@ -25,8 +25,6 @@ var schemeURLs = []string{
 	"javascript\t:alert(1)", "feed:javascript:alert(1)", "livescript:x", "a.b+c-d:e", "1javascript:x", "",
 }
 
-var dangerSchemes = []string{"javascript:", "vbscript:", "data:", "file:", "data:image/", "data:text/html,"}
-
 var htmlPayloads = []string{
 	`<script>alert(1)</script>`, `<SCRIPT SRC=//evil.example/x.js></SCRIPT>`, `<img src=x onerror=alert(1)>`,
 	`<svg/onload=alert(1)>`, `<iframe src="javascript:alert(1)"></iframe>`, `<a href="javascript:alert(1)">x</a>`,
